@@ -95,7 +95,8 @@ class Ctx:
         f = self._curf
         f.seek(0)
         f.write(desc)
-        f.write("\n" + " " * 40 + "\n")
+        f.write("\n")
+        f.truncate()
         f.flush()
 
     def elapsed(self):
